@@ -4,6 +4,7 @@ import GqlVerif.Proofs.C04SurjectiveExamples
 import GqlVerif.Proofs.C04SurjectiveSerValid
 import GqlVerif.Proofs.C04RustExamples
 import GqlVerif.Proofs.C04RustCoercionWitness
+import GqlVerif.Proofs.C04DefaultsLit
 open GqlVerif.C04
 #print axioms GqlVerif.C01.ser_fields_iff
 #print axioms variables_fields_are_declared
@@ -64,3 +65,9 @@ open GqlVerif.C04
 #print axioms GqlVerif.C04R.coerced_not_expressible
 #print axioms GqlVerif.C04R.cx_expressible
 #print axioms GqlVerif.C04R.cx_expressible_rust
+-- the literal expressions of the default_* constructors (Model/DefaultLit.lean; compared with the emitted code on every run)
+#print axioms GqlVerif.C04D.valueToLiteral_literalOk
+#print axioms GqlVerif.C04D.valueToLiteral_ok_iff_literalOk
+#print axioms GqlVerif.C04D.valueToLiteral_error_iff_literalOk
+#print axioms GqlVerif.C04D.defaultBodies_names
+#print axioms GqlVerif.C04D.defaultBodies_names_of_ok
